@@ -174,8 +174,6 @@ def compare_analysis(sim, ana, stats=None):
         for kwargs in ({}, {"return_magnitudes": False}, {"return_magnitudes": True}):
             if req is not None:
                 kwargs = dict(kwargs, constraint_ids=list(req))
-            elif not kwargs:
-                pass
             out = an.constraint_currents(sim, **kwargs)
             what = {"constraint_ids": req, "kwargs": {k: v for k, v in kwargs.items() if k != "constraint_ids"}}
             if set(out) != set(ans):
@@ -409,7 +407,7 @@ def check_C18(tier, seed, _n=None, _procs=None):
     quick = tier == "quick"
     # (A) theorems, exhaustively; (B) behaviours + analysis values.  The TLC runs are independent: started together.
     cfg = "Analysis_mc_quick" if quick else "Analysis_mc_small"
-    n = _n or (600 if quick else 24000)
+    n = _n or (600 if quick else 20000)
     procs = _procs or (4 if quick else 12)
     workers = int(os.environ.get("VERIF_TLC_WORKERS", "0")) or None
     with ThreadPoolExecutor(max_workers=3) as ex:
